@@ -53,6 +53,14 @@ HAND = [
     "template UseB() { signal input a; signal output out; signal output q; (out, q) <== BadB()(a); }\n"
     "template UseC() { signal input a; signal output out; component c = BadA(); c.in <== a; out <-- c.out; }\n"
     "template UseD() { signal input a; signal output out; out <== Dbl()(Dbl()(a)); }\n",
+    # a project of 280 templates, half of them lifted on demand by the other half (seeded C17 m7: a bounded CFG cache that evicts in hash order
+    # loses the findings of templates whose CFG-stage reports are still pending)
+    "pragma circom 2.0.0;\ntemplate Leaf1() { signal input in; signal output out; out <-- in + 1; }\ntemplate User1() { signal input in; signal output out; component leaf = Leaf1(); leaf.in <== in; out <== leaf.out; }\ntemplate Leaf2() { signal input in; signal output out; out <-- in + 2; }\ntemplate User2() { signal input in; signal output out; component leaf = Leaf2(); leaf.in <== in; out <== leaf.out; }\ntemplate Leaf3() { signal input in; signal output out; out <-- in + 3; }\ntemplate User3() { signal input in; signal output out; component leaf = Leaf3(); leaf.in <== in; out <== leaf.out; }\ntemplate Leaf4() { signal input in; signal output out; out <-- in + 4; }\ntemplate User4() { signal input in; signal output out; component leaf = Leaf4(); leaf.in <== in; out <== leaf.out; }\ntemplate Leaf5() { signal input in; signal output out; out <-- in + 5; }\ntemplate User5() { signal input in; signal output out; component leaf = Leaf5(); leaf.in <== in; out <== leaf.out; }\ntemplate Leaf6() { signal input in; signal output out; out <-- in + 6; }\ntemplate User6() { signal input in; signal output out; component leaf = Leaf6(); leaf.in <== in; out <== leaf.out; }\ntemplate Leaf7() { signal input in; signal output out; out <-- in + 7; }\ntemplate User7() { signal input in; signal output out; component leaf = Leaf7(); leaf.in <== in; out <== leaf.out; }\ntemplate Leaf8() { signal input in; signal output out; out <-- in + 8; }\ntemplate User8() { signal input in; signal output out; component leaf = Leaf8(); leaf.in <== in; out <== leaf.out; }\ntemplate Leaf9() { signal input in; signal output out; out <-- in + 9; }\ntemplate User9() { signal input in; signal output out; component leaf = Leaf9(); leaf.in <== in; out <== leaf.out; }\ntemplate Leaf10() { signal input in; signal output out; out <-- in + 10; }\ntemplate User10() { signal input in; signal output out; component leaf = Leaf10(); leaf.in <== in; out <== leaf.out; }\ntemplate Leaf11() { signal input in; signal output out; out <-- in + 11; }\ntemplate User11() { signal input in; signal output out; component leaf = Leaf11(); leaf.in <== in; out <== leaf.out; }\ntemplate Leaf12() { signal input in; signal output out; out <-- in + 12; }\ntemplate User12() { signal input in; signal output out; component leaf = Leaf12(); leaf.in <== in; out <== leaf.out; }\ntemplate Leaf13() { signal input in; signal output out; out <-- in + 13; }\ntemplate User13() { signal input in; signal output out; component leaf = Leaf13(); leaf.in <== in; out <== leaf.out; }\ntemplate Leaf14() { signal input in; signal output out; out <-- in + 14; }\ntemplate User14() { signal input in; signal output out; component leaf = Leaf14(); leaf.in <== in; out <== leaf.out; }\ntemplate Leaf15() { signal input in; signal output out; out <-- in + 15; }\ntemplate User15() { signal input in; signal output out; component leaf = Leaf15(); leaf.in <== in; out <== leaf.out; }\ntemplate Leaf16() { signal input in; signal output out; out <-- in + 16; }\ntemplate User16() { signal input in; signal output out; component leaf = Leaf16(); leaf.in <== in; out <== leaf.out; }\ntemplate Leaf17() { signal input in; signal output out; out <-- in + 17; }\ntemplate User17() { signal input in; signal output out; component leaf = Leaf17(); leaf.in <== in; out <== leaf.out; }\ntemplate Leaf18() { signal input in; signal output out; out <-- in + 18; }\ntemplate User18() { signal input in; signal output out; component leaf = Leaf18(); leaf.in <== in; out <== leaf.out; }\ntemplate Leaf19() { signal input in; signal output out; out <-- in + 19; }\ntemplate User19() { signal input in; signal output out; component leaf = Leaf19(); leaf.in <== in; out <== leaf.out; }\ntemplate Leaf20() { signal input in; signal output out; out <-- in + 20; }\ntemplate User20() { signal input in; signal output out; component leaf = Leaf20(); leaf.in <== in; out <== leaf.out; }\ntemplate Leaf21() { signal input in; signal output out; out <-- in + 21; }\ntemplate User21() { signal input in; signal output out; component leaf = Leaf21(); leaf.in <== in; out <== leaf.out; }\ntemplate Leaf22() { signal input in; signal output out; out <-- in + 22; }\ntemplate User22() { signal input in; signal output out; component leaf = Leaf22(); leaf.in <== in; out <== leaf.out; }\ntemplate Leaf23() { signal input in; signal output out; out <-- in + 23; }\ntemplate User23() { signal input in; signal output out; component leaf = Leaf23(); leaf.in <== in; out <== leaf.out; }\ntemplate Leaf24() { signal input in; signal output out; out <-- in + 24; }\ntemplate User24() { signal input in; signal output out; component leaf = Leaf24(); leaf.in <== in; out <== leaf.out; }\ntemplate Leaf25() { signal input in; signal output out; out <-- in + 25; }\ntemplate User25() { signal input in; signal output out; component leaf = Leaf25(); leaf.in <== in; out <== leaf.out; }\ntemplate Leaf26() { signal input in; signal output out; out <-- in + 26; }\ntemplate User26() { signal input in; signal output out; component leaf = Leaf26(); leaf.in <== in; out <== leaf.out; }\ntemplate Leaf27() { signal input in; signal output out; out <-- in + 27; }\ntemplate User27() { signal input in; signal output out; component leaf = Leaf27(); leaf.in <== in; out <== leaf.out; }\ntemplate Leaf28() { signal input in; signal output out; out <-- in + 28; }\ntemplate User28() { signal input in; signal output out; component leaf = Leaf28(); leaf.in <== in; out <== leaf.out; }\ntemplate Leaf29() { signal input in; signal output out; out <-- in + 29; }\ntemplate User29() { signal input in; signal output out; component leaf = Leaf29(); leaf.in <== in; out <== leaf.out; }\ntemplate Leaf30() { signal input in; signal output out; out <-- in + 30; }\ntemplate User30() { signal input in; signal output out; component leaf = Leaf30(); leaf.in <== in; out <== leaf.out; }\ntemplate Leaf31() { signal input in; signal output out; out <-- in + 31; }\ntemplate User31() { signal input in; signal output out; component leaf = Leaf31(); leaf.in <== in; out <== leaf.out; }\ntemplate Leaf32() { signal input in; signal output out; out <-- in + 32; }\ntemplate User32() { signal input in; signal output out; component leaf = Leaf32(); leaf.in <== in; out <== leaf.out; }\ntemplate Leaf33() { signal input in; signal output out; out <-- in + 33; }\ntemplate User33() { signal input in; signal output out; component leaf = Leaf33(); leaf.in <== in; out <== leaf.out; }\ntemplate Leaf34() { signal input in; signal output out; out <-- in + 34; }\ntemplate User34() { signal input in; signal output out; component leaf = Leaf34(); leaf.in <== in; out <== leaf.out; }\ntemplate Leaf35() { signal input in; signal output out; out <-- in + 35; }\ntemplate User35() { signal input in; signal output out; component leaf = Leaf35(); leaf.in <== in; out <== leaf.out; }\ntemplate Leaf36() { signal input in; signal output out; out <-- in + 36; }\ntemplate User36() { signal input in; signal output out; component leaf = Leaf36(); leaf.in <== in; out <== leaf.out; }\ntemplate Leaf37() { signal input in; signal output out; out <-- in + 37; }\ntemplate User37() { signal input in; signal output out; component leaf = Leaf37(); leaf.in <== in; out <== leaf.out; }\ntemplate Leaf38() { signal input in; signal output out; out <-- in + 38; }\ntemplate User38() { signal input in; signal output out; component leaf = Leaf38(); leaf.in <== in; out <== leaf.out; }\ntemplate Leaf39() { signal input in; signal output out; out <-- in + 39; }\ntemplate User39() { signal input in; signal output out; component leaf = Leaf39(); leaf.in <== in; out <== leaf.out; }\ntemplate Leaf40() { signal input in; signal output out; out <-- in + 40; }\ntemplate User40() { signal input in; signal output out; component leaf = Leaf40(); leaf.in <== in; out <== leaf.out; }\ntemplate Leaf41() { signal input in; signal output out; out <-- in + 41; }\ntemplate User41() { signal input in; signal output out; component leaf = Leaf41(); leaf.in <== in; out <== leaf.out; }\ntemplate Leaf42() { signal input in; signal output out; out <-- in + 42; }\ntemplate User42() { signal input in; signal output out; component leaf = Leaf42(); leaf.in <== in; out <== leaf.out; }\ntemplate Leaf43() { signal input in; signal output out; out <-- in + 43; }\ntemplate User43() { signal input in; signal output out; component leaf = Leaf43(); leaf.in <== in; out <== leaf.out; }\ntemplate Leaf44() { signal input in; signal output out; out <-- in + 44; }\ntemplate User44() { signal input in; signal output out; component leaf = Leaf44(); leaf.in <== in; out <== leaf.out; }\ntemplate Leaf45() { signal input in; signal output out; out <-- in + 45; }\ntemplate User45() { signal input in; signal output out; component leaf = Leaf45(); leaf.in <== in; out <== leaf.out; }\ntemplate Leaf46() { signal input in; signal output out; out <-- in + 46; }\ntemplate User46() { signal input in; signal output out; component leaf = Leaf46(); leaf.in <== in; out <== leaf.out; }\ntemplate Leaf47() { signal input in; signal output out; out <-- in + 47; }\ntemplate User47() { signal input in; signal output out; component leaf = Leaf47(); leaf.in <== in; out <== leaf.out; }\ntemplate Leaf48() { signal input in; signal output out; out <-- in + 48; }\ntemplate User48() { signal input in; signal output out; component leaf = Leaf48(); leaf.in <== in; out <== leaf.out; }\ntemplate Leaf49() { signal input in; signal output out; out <-- in + 49; }\ntemplate User49() { signal input in; signal output out; component leaf = Leaf49(); leaf.in <== in; out <== leaf.out; }\ntemplate Leaf50() { signal input in; signal output out; out <-- in + 50; }\ntemplate User50() { signal input in; signal output out; component leaf = Leaf50(); leaf.in <== in; out <== leaf.out; }\ntemplate Leaf51() { signal input in; signal output out; out <-- in + 51; }\ntemplate User51() { signal input in; signal output out; component leaf = Leaf51(); leaf.in <== in; out <== leaf.out; }\ntemplate Leaf52() { signal input in; signal output out; out <-- in + 52; }\ntemplate User52() { signal input in; signal output out; component leaf = Leaf52(); leaf.in <== in; out <== leaf.out; }\ntemplate Leaf53() { signal input in; signal output out; out <-- in + 53; }\ntemplate User53() { signal input in; signal output out; component leaf = Leaf53(); leaf.in <== in; out <== leaf.out; }\ntemplate Leaf54() { signal input in; signal output out; out <-- in + 54; }\ntemplate User54() { signal input in; signal output out; component leaf = Leaf54(); leaf.in <== in; out <== leaf.out; }\ntemplate Leaf55() { signal input in; signal output out; out <-- in + 55; }\ntemplate User55() { signal input in; signal output out; component leaf = Leaf55(); leaf.in <== in; out <== leaf.out; }\ntemplate Leaf56() { signal input in; signal output out; out <-- in + 56; }\ntemplate User56() { signal input in; signal output out; component leaf = Leaf56(); leaf.in <== in; out <== leaf.out; }\ntemplate Leaf57() { signal input in; signal output out; out <-- in + 57; }\ntemplate User57() { signal input in; signal output out; component leaf = Leaf57(); leaf.in <== in; out <== leaf.out; }\ntemplate Leaf58() { signal input in; signal output out; out <-- in + 58; }\ntemplate User58() { signal input in; signal output out; component leaf = Leaf58(); leaf.in <== in; out <== leaf.out; }\ntemplate Leaf59() { signal input in; signal output out; out <-- in + 59; }\ntemplate User59() { signal input in; signal output out; component leaf = Leaf59(); leaf.in <== in; out <== leaf.out; }\ntemplate Leaf60() { signal input in; signal output out; out <-- in + 60; }\ntemplate User60() { signal input in; signal output out; component leaf = Leaf60(); leaf.in <== in; out <== leaf.out; }\ntemplate Leaf61() { signal input in; signal output out; out <-- in + 61; }\ntemplate User61() { signal input in; signal output out; component leaf = Leaf61(); leaf.in <== in; out <== leaf.out; }\ntemplate Leaf62() { signal input in; signal output out; out <-- in + 62; }\ntemplate User62() { signal input in; signal output out; component leaf = Leaf62(); leaf.in <== in; out <== leaf.out; }\ntemplate Leaf63() { signal input in; signal output out; out <-- in + 63; }\ntemplate User63() { signal input in; signal output out; component leaf = Leaf63(); leaf.in <== in; out <== leaf.out; }\ntemplate Leaf64() { signal input in; signal output out; out <-- in + 64; }\ntemplate User64() { signal input in; signal output out; component leaf = Leaf64(); leaf.in <== in; out <== leaf.out; }\ntemplate Leaf65() { signal input in; signal output out; out <-- in + 65; }\ntemplate User65() { signal input in; signal output out; component leaf = Leaf65(); leaf.in <== in; out <== leaf.out; }\ntemplate Leaf66() { signal input in; signal output out; out <-- in + 66; }\ntemplate User66() { signal input in; signal output out; component leaf = Leaf66(); leaf.in <== in; out <== leaf.out; }\ntemplate Leaf67() { signal input in; signal output out; out <-- in + 67; }\ntemplate User67() { signal input in; signal output out; component leaf = Leaf67(); leaf.in <== in; out <== leaf.out; }\ntemplate Leaf68() { signal input in; signal output out; out <-- in + 68; }\ntemplate User68() { signal input in; signal output out; component leaf = Leaf68(); leaf.in <== in; out <== leaf.out; }\ntemplate Leaf69() { signal input in; signal output out; out <-- in + 69; }\ntemplate User69() { signal input in; signal output out; component leaf = Leaf69(); leaf.in <== in; out <== leaf.out; }\ntemplate Leaf70() { signal input in; signal output out; out <-- in + 70; }\ntemplate User70() { signal input in; signal output out; component leaf = Leaf70(); leaf.in <== in; out <== leaf.out; }\ntemplate Leaf71() { signal input in; signal output out; out <-- in + 71; }\ntemplate User71() { signal input in; signal output out; component leaf = Leaf71(); leaf.in <== in; out <== leaf.out; }\ntemplate Leaf72() { signal input in; signal output out; out <-- in + 72; }\ntemplate User72() { signal input in; signal output out; component leaf = Leaf72(); leaf.in <== in; out <== leaf.out; }\ntemplate Leaf73() { signal input in; signal output out; out <-- in + 73; }\ntemplate User73() { signal input in; signal output out; component leaf = Leaf73(); leaf.in <== in; out <== leaf.out; }\ntemplate Leaf74() { signal input in; signal output out; out <-- in + 74; }\ntemplate User74() { signal input in; signal output out; component leaf = Leaf74(); leaf.in <== in; out <== leaf.out; }\ntemplate Leaf75() { signal input in; signal output out; out <-- in + 75; }\ntemplate User75() { signal input in; signal output out; component leaf = Leaf75(); leaf.in <== in; out <== leaf.out; }\ntemplate Leaf76() { signal input in; signal output out; out <-- in + 76; }\ntemplate User76() { signal input in; signal output out; component leaf = Leaf76(); leaf.in <== in; out <== leaf.out; }\ntemplate Leaf77() { signal input in; signal output out; out <-- in + 77; }\ntemplate User77() { signal input in; signal output out; component leaf = Leaf77(); leaf.in <== in; out <== leaf.out; }\ntemplate Leaf78() { signal input in; signal output out; out <-- in + 78; }\ntemplate User78() { signal input in; signal output out; component leaf = Leaf78(); leaf.in <== in; out <== leaf.out; }\ntemplate Leaf79() { signal input in; signal output out; out <-- in + 79; }\ntemplate User79() { signal input in; signal output out; component leaf = Leaf79(); leaf.in <== in; out <== leaf.out; }\ntemplate Leaf80() { signal input in; signal output out; out <-- in + 80; }\ntemplate User80() { signal input in; signal output out; component leaf = Leaf80(); leaf.in <== in; out <== leaf.out; }\ntemplate Leaf81() { signal input in; signal output out; out <-- in + 81; }\ntemplate User81() { signal input in; signal output out; component leaf = Leaf81(); leaf.in <== in; out <== leaf.out; }\ntemplate Leaf82() { signal input in; signal output out; out <-- in + 82; }\ntemplate User82() { signal input in; signal output out; component leaf = Leaf82(); leaf.in <== in; out <== leaf.out; }\ntemplate Leaf83() { signal input in; signal output out; out <-- in + 83; }\ntemplate User83() { signal input in; signal output out; component leaf = Leaf83(); leaf.in <== in; out <== leaf.out; }\ntemplate Leaf84() { signal input in; signal output out; out <-- in + 84; }\ntemplate User84() { signal input in; signal output out; component leaf = Leaf84(); leaf.in <== in; out <== leaf.out; }\ntemplate Leaf85() { signal input in; signal output out; out <-- in + 85; }\ntemplate User85() { signal input in; signal output out; component leaf = Leaf85(); leaf.in <== in; out <== leaf.out; }\ntemplate Leaf86() { signal input in; signal output out; out <-- in + 86; }\ntemplate User86() { signal input in; signal output out; component leaf = Leaf86(); leaf.in <== in; out <== leaf.out; }\ntemplate Leaf87() { signal input in; signal output out; out <-- in + 87; }\ntemplate User87() { signal input in; signal output out; component leaf = Leaf87(); leaf.in <== in; out <== leaf.out; }\ntemplate Leaf88() { signal input in; signal output out; out <-- in + 88; }\ntemplate User88() { signal input in; signal output out; component leaf = Leaf88(); leaf.in <== in; out <== leaf.out; }\ntemplate Leaf89() { signal input in; signal output out; out <-- in + 89; }\ntemplate User89() { signal input in; signal output out; component leaf = Leaf89(); leaf.in <== in; out <== leaf.out; }\ntemplate Leaf90() { signal input in; signal output out; out <-- in + 90; }\ntemplate User90() { signal input in; signal output out; component leaf = Leaf90(); leaf.in <== in; out <== leaf.out; }\ntemplate Leaf91() { signal input in; signal output out; out <-- in + 91; }\ntemplate User91() { signal input in; signal output out; component leaf = Leaf91(); leaf.in <== in; out <== leaf.out; }\ntemplate Leaf92() { signal input in; signal output out; out <-- in + 92; }\ntemplate User92() { signal input in; signal output out; component leaf = Leaf92(); leaf.in <== in; out <== leaf.out; }\ntemplate Leaf93() { signal input in; signal output out; out <-- in + 93; }\ntemplate User93() { signal input in; signal output out; component leaf = Leaf93(); leaf.in <== in; out <== leaf.out; }\ntemplate Leaf94() { signal input in; signal output out; out <-- in + 94; }\ntemplate User94() { signal input in; signal output out; component leaf = Leaf94(); leaf.in <== in; out <== leaf.out; }\ntemplate Leaf95() { signal input in; signal output out; out <-- in + 95; }\ntemplate User95() { signal input in; signal output out; component leaf = Leaf95(); leaf.in <== in; out <== leaf.out; }\ntemplate Leaf96() { signal input in; signal output out; out <-- in + 96; }\ntemplate User96() { signal input in; signal output out; component leaf = Leaf96(); leaf.in <== in; out <== leaf.out; }\ntemplate Leaf97() { signal input in; signal output out; out <-- in + 97; }\ntemplate User97() { signal input in; signal output out; component leaf = Leaf97(); leaf.in <== in; out <== leaf.out; }\ntemplate Leaf98() { signal input in; signal output out; out <-- in + 98; }\ntemplate User98() { signal input in; signal output out; component leaf = Leaf98(); leaf.in <== in; out <== leaf.out; }\ntemplate Leaf99() { signal input in; signal output out; out <-- in + 99; }\ntemplate User99() { signal input in; signal output out; component leaf = Leaf99(); leaf.in <== in; out <== leaf.out; }\ntemplate Leaf100() { signal input in; signal output out; out <-- in + 100; }\ntemplate User100() { signal input in; signal output out; component leaf = Leaf100(); leaf.in <== in; out <== leaf.out; }\ntemplate Leaf101() { signal input in; signal output out; out <-- in + 101; }\ntemplate User101() { signal input in; signal output out; component leaf = Leaf101(); leaf.in <== in; out <== leaf.out; }\ntemplate Leaf102() { signal input in; signal output out; out <-- in + 102; }\ntemplate User102() { signal input in; signal output out; component leaf = Leaf102(); leaf.in <== in; out <== leaf.out; }\ntemplate Leaf103() { signal input in; signal output out; out <-- in + 103; }\ntemplate User103() { signal input in; signal output out; component leaf = Leaf103(); leaf.in <== in; out <== leaf.out; }\ntemplate Leaf104() { signal input in; signal output out; out <-- in + 104; }\ntemplate User104() { signal input in; signal output out; component leaf = Leaf104(); leaf.in <== in; out <== leaf.out; }\ntemplate Leaf105() { signal input in; signal output out; out <-- in + 105; }\ntemplate User105() { signal input in; signal output out; component leaf = Leaf105(); leaf.in <== in; out <== leaf.out; }\ntemplate Leaf106() { signal input in; signal output out; out <-- in + 106; }\ntemplate User106() { signal input in; signal output out; component leaf = Leaf106(); leaf.in <== in; out <== leaf.out; }\ntemplate Leaf107() { signal input in; signal output out; out <-- in + 107; }\ntemplate User107() { signal input in; signal output out; component leaf = Leaf107(); leaf.in <== in; out <== leaf.out; }\ntemplate Leaf108() { signal input in; signal output out; out <-- in + 108; }\ntemplate User108() { signal input in; signal output out; component leaf = Leaf108(); leaf.in <== in; out <== leaf.out; }\ntemplate Leaf109() { signal input in; signal output out; out <-- in + 109; }\ntemplate User109() { signal input in; signal output out; component leaf = Leaf109(); leaf.in <== in; out <== leaf.out; }\ntemplate Leaf110() { signal input in; signal output out; out <-- in + 110; }\ntemplate User110() { signal input in; signal output out; component leaf = Leaf110(); leaf.in <== in; out <== leaf.out; }\ntemplate Leaf111() { signal input in; signal output out; out <-- in + 111; }\ntemplate User111() { signal input in; signal output out; component leaf = Leaf111(); leaf.in <== in; out <== leaf.out; }\ntemplate Leaf112() { signal input in; signal output out; out <-- in + 112; }\ntemplate User112() { signal input in; signal output out; component leaf = Leaf112(); leaf.in <== in; out <== leaf.out; }\ntemplate Leaf113() { signal input in; signal output out; out <-- in + 113; }\ntemplate User113() { signal input in; signal output out; component leaf = Leaf113(); leaf.in <== in; out <== leaf.out; }\ntemplate Leaf114() { signal input in; signal output out; out <-- in + 114; }\ntemplate User114() { signal input in; signal output out; component leaf = Leaf114(); leaf.in <== in; out <== leaf.out; }\ntemplate Leaf115() { signal input in; signal output out; out <-- in + 115; }\ntemplate User115() { signal input in; signal output out; component leaf = Leaf115(); leaf.in <== in; out <== leaf.out; }\ntemplate Leaf116() { signal input in; signal output out; out <-- in + 116; }\ntemplate User116() { signal input in; signal output out; component leaf = Leaf116(); leaf.in <== in; out <== leaf.out; }\ntemplate Leaf117() { signal input in; signal output out; out <-- in + 117; }\ntemplate User117() { signal input in; signal output out; component leaf = Leaf117(); leaf.in <== in; out <== leaf.out; }\ntemplate Leaf118() { signal input in; signal output out; out <-- in + 118; }\ntemplate User118() { signal input in; signal output out; component leaf = Leaf118(); leaf.in <== in; out <== leaf.out; }\ntemplate Leaf119() { signal input in; signal output out; out <-- in + 119; }\ntemplate User119() { signal input in; signal output out; component leaf = Leaf119(); leaf.in <== in; out <== leaf.out; }\ntemplate Leaf120() { signal input in; signal output out; out <-- in + 120; }\ntemplate User120() { signal input in; signal output out; component leaf = Leaf120(); leaf.in <== in; out <== leaf.out; }\ntemplate Leaf121() { signal input in; signal output out; out <-- in + 121; }\ntemplate User121() { signal input in; signal output out; component leaf = Leaf121(); leaf.in <== in; out <== leaf.out; }\ntemplate Leaf122() { signal input in; signal output out; out <-- in + 122; }\ntemplate User122() { signal input in; signal output out; component leaf = Leaf122(); leaf.in <== in; out <== leaf.out; }\ntemplate Leaf123() { signal input in; signal output out; out <-- in + 123; }\ntemplate User123() { signal input in; signal output out; component leaf = Leaf123(); leaf.in <== in; out <== leaf.out; }\ntemplate Leaf124() { signal input in; signal output out; out <-- in + 124; }\ntemplate User124() { signal input in; signal output out; component leaf = Leaf124(); leaf.in <== in; out <== leaf.out; }\ntemplate Leaf125() { signal input in; signal output out; out <-- in + 125; }\ntemplate User125() { signal input in; signal output out; component leaf = Leaf125(); leaf.in <== in; out <== leaf.out; }\ntemplate Leaf126() { signal input in; signal output out; out <-- in + 126; }\ntemplate User126() { signal input in; signal output out; component leaf = Leaf126(); leaf.in <== in; out <== leaf.out; }\ntemplate Leaf127() { signal input in; signal output out; out <-- in + 127; }\ntemplate User127() { signal input in; signal output out; component leaf = Leaf127(); leaf.in <== in; out <== leaf.out; }\ntemplate Leaf128() { signal input in; signal output out; out <-- in + 128; }\ntemplate User128() { signal input in; signal output out; component leaf = Leaf128(); leaf.in <== in; out <== leaf.out; }\ntemplate Leaf129() { signal input in; signal output out; out <-- in + 129; }\ntemplate User129() { signal input in; signal output out; component leaf = Leaf129(); leaf.in <== in; out <== leaf.out; }\ntemplate Leaf130() { signal input in; signal output out; out <-- in + 130; }\ntemplate User130() { signal input in; signal output out; component leaf = Leaf130(); leaf.in <== in; out <== leaf.out; }\ntemplate Leaf131() { signal input in; signal output out; out <-- in + 131; }\ntemplate User131() { signal input in; signal output out; component leaf = Leaf131(); leaf.in <== in; out <== leaf.out; }\ntemplate Leaf132() { signal input in; signal output out; out <-- in + 132; }\ntemplate User132() { signal input in; signal output out; component leaf = Leaf132(); leaf.in <== in; out <== leaf.out; }\ntemplate Leaf133() { signal input in; signal output out; out <-- in + 133; }\ntemplate User133() { signal input in; signal output out; component leaf = Leaf133(); leaf.in <== in; out <== leaf.out; }\ntemplate Leaf134() { signal input in; signal output out; out <-- in + 134; }\ntemplate User134() { signal input in; signal output out; component leaf = Leaf134(); leaf.in <== in; out <== leaf.out; }\ntemplate Leaf135() { signal input in; signal output out; out <-- in + 135; }\ntemplate User135() { signal input in; signal output out; component leaf = Leaf135(); leaf.in <== in; out <== leaf.out; }\ntemplate Leaf136() { signal input in; signal output out; out <-- in + 136; }\ntemplate User136() { signal input in; signal output out; component leaf = Leaf136(); leaf.in <== in; out <== leaf.out; }\ntemplate Leaf137() { signal input in; signal output out; out <-- in + 137; }\ntemplate User137() { signal input in; signal output out; component leaf = Leaf137(); leaf.in <== in; out <== leaf.out; }\ntemplate Leaf138() { signal input in; signal output out; out <-- in + 138; }\ntemplate User138() { signal input in; signal output out; component leaf = Leaf138(); leaf.in <== in; out <== leaf.out; }\ntemplate Leaf139() { signal input in; signal output out; out <-- in + 139; }\ntemplate User139() { signal input in; signal output out; component leaf = Leaf139(); leaf.in <== in; out <== leaf.out; }\ntemplate Leaf140() { signal input in; signal output out; out <-- in + 140; }\ntemplate User140() { signal input in; signal output out; component leaf = Leaf140(); leaf.in <== in; out <== leaf.out; }\n",
+    # locals that depend on a local that aliases a signal, in loops (seeded C17 m8: the constants pre-pass removed dependents as it iterated a hash
+    # map, so whether `acc` was taken for a constant depended on the hash order)
+    "pragma circom 2.0.0;\ntemplate L(n) { signal input in; signal output out; var step = in; var acc = 0; for (var i = 0; i < n; i++) { acc = acc + step; } out <-- acc * in; out === acc * in; }\n"
+    "template M(n) { signal input in; signal output out[2]; var a = in; var b = 1; var c = 1; var d = 1; for (var i = 0; i < 2; i++) { out[i] <-- d * in; d = c * c; c = b * b; b = a + 1; } }\n"
+    "template N(n) { signal input in; signal output o; var p = in * 2; var q = p + 1; var r = 0; if (n > 1) { r = q; } else { r = 2; } var s = 0; for (var j = 0; j < n; j++) { s = s + r; } o <-- s * in; }\n",
 ]
 
 
